@@ -7,6 +7,10 @@
                 S9:<session>:<hdr-hex20> S9F1 from <session> about the offending header
                 D:<hdr-hex20>:<bodyLen>  delivered to the handlers
                 E:separate | E:selectfail   link ends
+    rsp.ev <validate 0/1> <sessionID> <t7 configured 0/1> <event>*   (from the idle endpoint)
+        event: U:a:<sys> | U:p (TCP connection adopted, active / passive)   F:<hdr-hex20>:<bodyLen>
+               T6 (own Select.req timed out) | T7 | T8 ; a timer event that is not enabled is answered "!disabled"
+        -> per event "<out>* ;" then "st=<n> sel=<n|-> other=<..> t7=<0/1>"
     rsp.send <opened> <live> <entry sync|async|reply|forward|forwardAsync> <isData> <st1> <stW>
         -> "<err> drops=<n> wire=<n> queued=<n>"   (drop / wire / queue deltas of one call)
     rsp.accept <live 0/1>  -> adopt | refuse
@@ -55,6 +59,35 @@ def showOut : Out → String
 
 def showEff : Effect → String
   | .none => "" | .peerSeparate => " E:separate" | .selectFailed => " E:selectfail"
+  | .t7Expired => " E:t7" | .t8Expired => " E:t8"
+
+def parseEv (t : String) : Option Ev :=
+  match t.splitOn ":" with
+  | ["U", "p"] => some (.tcpUp false 0)
+  | ["U", "a", n] => n.toNat?.map (fun x => .tcpUp true x)
+  | ["F", h, n] => (parseFrame h n).map .frame
+  | ["T6"] => some .t6Select
+  | ["T7"] => some .t7
+  | ["T8"] => some .t8
+  | _ => none
+
+def enabledB (s : RState) : Ev → Bool
+  | .tcpUp _ _ => s.st == .notConnected
+  | .frame _ => s.st != .notConnected
+  | .t6Select => s.openSel.isSome
+  | .t7 => s.t7
+  | .t8 => s.st != .notConnected
+
+def showRes (r : List Out × Effect) : String :=
+  String.join (r.1.map (fun o => showOut o ++ " ")) ++ (showEff r.2).trimAsciiStart.toString ++ (if r.2 == .none then "" else " ") ++ "; "
+
+def runShow (c : Cfg) : RState → List Ev → String → RState × String
+  | s, [], acc => (s, acc)
+  | s, e :: es, acc =>
+    if enabledB s e then
+      let r := step c s e
+      runShow c r.1 es (acc ++ showRes (r.2.1, r.2.2))
+    else runShow c s es (acc ++ "!disabled ; ")
 
 def showState (s : RState) : String :=
   let sel := match s.openSel with | some n => toString n | none => "-"
@@ -75,11 +108,21 @@ def handle (cmd : String) (args : List String) : Option String :=
       | v :: sid :: st :: sel :: oth :: rest =>
         (match sid.toNat?, stOf st, optNat sel, natList oth, parseFrames rest with
          | some sid, some st, some sel, some oth, some fs =>
-           let c : Cfg := ⟨v == "1", sid⟩
-           let (s', res) := run c ⟨st, sel, oth⟩ fs
+           let c : Cfg := ⟨v == "1", sid, true⟩
+           let (s', res) := run c ⟨st, sel, oth, [], st == .notSelected⟩ fs
            String.join (res.map (fun r => String.join (r.1.map (fun o => showOut o ++ " ")) ++ (showEff r.2).trimAsciiStart.toString ++ (if r.2 == .none then "" else " ") ++ "; "))
              ++ showState s'
          | _, _, _, _, _ => "bad-op")
+      | _ => "bad-op")
+  | "rsp.ev" =>
+    some (match args with
+      | v :: sid :: t7 :: rest =>
+        (match sid.toNat?, rest.mapM parseEv with
+         | some sid, some es =>
+           let c : Cfg := ⟨v == "1", sid, t7 == "1"⟩
+           let (s', txt) := runShow c .idle es ""
+           txt ++ showState s' ++ (if s'.t7 then " t7=1" else " t7=0")
+         | _, _ => "bad-op")
       | _ => "bad-op")
   | "rsp.send" =>
     some (match args with
